@@ -23,7 +23,7 @@ SPECDIR = SPECS / "fs"
 
 
 def base_cfg(**kw):
-    cfg = {"overwrite": True, "overwrite_part": False, "rm_part_on_exc": True, "text_mode": False, "perms": 0, "umask": 0o022,
+    cfg = {"overwrite": True, "overwrite_part": False, "rm_part_on_exc": True, "text_mode": False, "perms": -1, "umask": 0o022,
            "dest_present": True, "part_present": False, "body": "three", "raise_at": -1, "dest_appears": False}
     cfg.update(kw)
     return cfg
@@ -34,7 +34,7 @@ def scenarios(thorough):
     for body, text, dp, ow in itertools.product(["none", "one", "three", "big", "many"], [False, True], [False, True], [True, False]):
         if not ow and dp:
             continue
-        for perms, umask in ((0, 0o022), (0o600, 0o077)) if not thorough else ((0, 0o022), (0, 0o077), (0o600, 0o022), (0o644, 0o077)):
+        for perms, umask in ((-1, 0o022), (0o600, 0o077), (0, 0o022)) if not thorough else ((-1, 0o022), (-1, 0o077), (0o600, 0o022), (0o644, 0o077), (0, 0o077), (0o444, 0o022)):
             out.append(base_cfg(body=body, text_mode=text, dest_present=dp, overwrite=ow, perms=perms, umask=umask))
     # the second save of a long-lived saver object (descriptors opened in between)
     for body, text in (("three", False), ("big", True), ("one", False)):
